@@ -157,7 +157,9 @@ def interior(S, cfg):
         return f
     cons = ['_cons1_111', '_cons1_112', '_cons2_122', '_cons2_123', '_cons2_133', '_cons3_22', '_cons3_33']
     with patched(*[(RR, c, recorder(c)) for c in cons], (RR, 'min', sym_min)):
-        limit, code = RR._calculate_int_dz(rr, 'outer' if adiabatic else None)
+        # the flag calculate_min_dz hands down: 'outer' = this bundle's own (single) duct is adiabatic; 'outer_byp' = the
+        # adiabatic wall is the OUTER wall of a flowing bypass, the bundle interior still exchanges heat with its duct
+        limit, code = RR._calculate_int_dz(rr, cfg.get('flag', 'outer' if adiabatic else None))
     typ = rr.subchannel.type
     tnames = S.names('Tc', nsc)
     pnames = set(S.names('qpin', rr.n_pin) + S.names('qcool', nsc) + S.names('pduct', nd))
@@ -590,12 +592,16 @@ def aggregate(S, cfg):
     T_lo, T_hi = 600.0, 800.0
     lims = {}
 
+    flags = {'int': [], 'byp': []}
+
     def int_dz(bundle, which):
+        flags['int'].append(which)
         T = bundle.coolant.temperature
         lims[('int', T)] = S.pos(f'lim_int_{int(T)}', 1e-4, 1e-2)
         return lims[('int', T)], '1-111'
 
     def byp_dz(bundle, which):
+        flags['byp'].append(which)
         T = bundle.coolant.temperature
         lims[('byp', T)] = S.pos(f'lim_byp_{int(T)}', 1e-4, 1e-2)
         return lims[('byp', T)], '6-66'
@@ -611,6 +617,14 @@ def aggregate(S, cfg):
         prod = prod * (res - lims[k])
     S.eq('aggregate.bundle.is_one_of_the_limits', prod, 0)
     S.holds('aggregate.bundle.coolant_state_restored', b.int_updates[-1] == 555.0)
+    # which wall is adiabatic: the bundle's own duct ('outer') unless a flowing bypass lies between it and the
+    # adiabatic boundary ('outer_byp': the interior limit then keeps its duct term - contract `interior[flag=outer_byp]`)
+    if not cfg.get('adiabatic', False):
+        want_flag = None
+    else:
+        want_flag = 'outer_byp' if (n_byp and flowing) else 'outer'
+    S.holds('aggregate.bundle.adiabatic_wall_named_to_every_limit',
+            all(f == want_flag for f in flags['int'] + flags['byp']) and len(flags['int']) == 2)
     # assembly level
 
     class _Reg:
@@ -651,6 +665,7 @@ def configs(tier):
         out.append((interior, dict(n_ring=n, conv_approx=True)))
     out.append((interior, dict(n_ring=3, adiabatic=True)))
     out.append((interior, dict(n_ring=2, n_duct=2)))
+    out.append((interior, dict(n_ring=2, n_duct=2, flag='outer_byp')))
     out.append((interior, dict(n_ring=3, n_duct=2, conv_approx=True)))
     for n in (2, 3, 4):
         out.append((bypass, dict(n_ring=n, n_duct=2)))
@@ -670,6 +685,8 @@ def configs(tier):
     out.append((aggregate, dict()))
     out.append((aggregate, dict(n_bypass=2, flowing=True, adiabatic=True)))
     out.append((aggregate, dict(n_bypass=1, flowing=False)))
+    out.append((aggregate, dict(n_bypass=1, flowing=False, adiabatic=True)))
+    out.append((aggregate, dict(adiabatic=True)))
     # the step the sweep actually takes: Reactor._setup_overall_axial_mesh_req reduces the per-assembly limits to
     # one requirement that is <= every limit (rounded DOWN to the micrometre) - the contract C05 proves, on which
     # "the selected step keeps every weight non-negative" rests as much as on the limits themselves
